@@ -19,7 +19,7 @@ def run(ck):
             ws = ck.rng.sample(ws, 6) + [tuple([1] * n), tuple(range(1, n + 1))[:n] if n <= 4 else tuple([1, 2, 3, 4, 1][:n])]
         e["wlist"] = [list(w) for w in ws]
     # larger random vectors
-    for i in range(200 if q else 5000):
+    for i in range(200 if q else 20000):
         n = ck.rng.randint(1, 9)
         s = [ck.rng.randint(0, 10 ** ck.rng.randint(1, 6)) for _ in range(n)]
         if i % 3 == 0:
